@@ -227,12 +227,88 @@ func (e *env) witnessIdleClose(name string, wi int) caseRec {
 	return c
 }
 
+// serial: requests one after the other on one swamp (no lifecycle step inside a request)
+func (e *env) serial(name string, wi int, rng *common.Rng, idleGap bool) caseRec {
+	c := caseRec{kind: "serial", name: name, wi: wi}
+	if idleGap {
+		c.kind = "serial_idle"
+	}
+	ctx := context.Background()
+	n := 6 + rng.Intn(9)
+	for j := 0; j < n; j++ {
+		k := rng.Intn(6)
+		if rng.Chance(65) {
+			st, err := e.set(ctx, name, k)
+			c.script = append(c.script, fmt.Sprintf("set k%d -> %s", k, st))
+			if err == nil && (st == "NEW" || st == "UPDATED" || st == "NOTHING_CHANGED") {
+				c.acks = append(c.acks, ack{false, k})
+			}
+		} else {
+			st, err := e.del(ctx, name, k)
+			c.script = append(c.script, fmt.Sprintf("delete k%d -> %s", k, st))
+			if err == nil && st == "DELETED" {
+				c.acks = append(c.acks, ack{true, k})
+				c.nontriv = true
+			}
+		}
+		if idleGap && j == n/2 {
+			time.Sleep(3500 * time.Millisecond) // the idle listener closes the swamp here
+			c.script = append(c.script, fmt.Sprintf("idle 3.5 s, instance in map afterwards: %v", e.instID(name) != 0))
+			c.nontriv = true
+		}
+	}
+	return c
+}
+
+// stress: writers (each owns its keys) on one swamp with 1 s idle close and 1 s write interval;
+// an anchor key is never deleted, so the swamp never becomes empty (no auto-destroy here: that
+// race is covered by the forced witness, a free-running hit could not be classified)
+func (e *env) stress(name string, rng *common.Rng, dur time.Duration) caseRec {
+	c := caseRec{kind: "stress", name: name, wi: 1, nontriv: true}
+	ctx := context.Background()
+	e.set(ctx, name, 0)
+	c.acks = append(c.acks, ack{false, 0})
+	var mu sync.Mutex
+	var wg sync.WaitGroup
+	stop := time.Now().Add(dur)
+	for g := 0; g < 4; g++ {
+		wg.Add(1)
+		r := rng.Fork(fmt.Sprintf("g%d", g))
+		go func(g int) {
+			defer wg.Done()
+			var mine []ack
+			for time.Now().Before(stop) {
+				k := 1 + g*2 + r.Intn(2)
+				if r.Chance(70) {
+					if st, err := e.set(ctx, name, k); err == nil && st != "" {
+						mine = append(mine, ack{false, k})
+					}
+				} else {
+					if st, err := e.del(ctx, name, k); err == nil && st == "DELETED" {
+						mine = append(mine, ack{true, k})
+					}
+				}
+				if r.Chance(8) {
+					time.Sleep(time.Duration(2200+r.Intn(600)) * time.Millisecond) // let it idle-close
+				} else {
+					time.Sleep(time.Duration(r.Intn(40)) * time.Millisecond)
+				}
+			}
+			mu.Lock()
+			c.acks = append(c.acks, mine...) // keys are owned per goroutine: per-key order is preserved
+			mu.Unlock()
+		}(g)
+	}
+	wg.Wait()
+	c.script = append(c.script, fmt.Sprintf("%d acknowledged operations by 4 writers", len(c.acks)))
+	return c
+}
+
 func main() {
 	a := common.ParseArgs()
 	run := common.NewRun(a, "C16", "HV.Conc.Lifecycle")
-	_ = run
+	run.Meta.Rule = "a case = one persistent V2 swamp of a real in-process engine driven through the gateway: the acknowledged set/delete operations, and the key set found after GracefulStop + a fresh engine on the same root. Forced witnesses: the two refutation schedules of Conc/Lifecycle.v forced through the hooks swamp.autodestroy / swamp.idle.read / gateway.set.summoned in immediate-write and 1 s-interval mode (the model predicts the reloaded set). Serial: random request sequences without/with an idle close in the middle. Stress: 4 writers per swamp with idle closes. Non-trivial = a forced race, an acknowledged delete, or an idle close happened"
 	rng := common.NewRng(a.Seed, "C16")
-	_ = rng
 	rig.Quiet()
 	root, _ := os.MkdirTemp("", "c16")
 	defer os.RemoveAll(root)
@@ -246,21 +322,82 @@ func main() {
 	reg(srv)
 	e := &env{srv: srv}
 	var cases []caseRec
-	var mu sync.Mutex
-	add := func(c caseRec) { mu.Lock(); cases = append(cases, c); mu.Unlock() }
-	if os.Getenv("C16_DEBUG") == "" {
-		add(e.witnessAutoDestroy("c16a/w/i0", 0))
-		add(e.witnessAutoDestroy("c16b/w/i1", 1))
+	model := map[string]int{}
+	w := e.witnessAutoDestroy("c16a/w/i0", 0)
+	model[w.name] = 1
+	cases = append(cases, w)
+	w = e.witnessAutoDestroy("c16b/w/i1", 1)
+	model[w.name] = 2
+	cases = append(cases, w)
+	w = e.witnessIdleClose("c16c/w/ii0", 0)
+	if w.flags == 2 {
+		model[w.name] = 3
 	}
-	add(e.witnessIdleClose("c16c/w/ii0", 0))
-	add(e.witnessIdleClose("c16d/w/ii1", 1))
-	// restart and compare
+	cases = append(cases, w)
+	w = e.witnessIdleClose("c16d/w/ii1", 1)
+	if w.flags == 2 {
+		model[w.name] = 4
+	}
+	cases = append(cases, w)
+	nser, nidle, nstress, sdur := 160, 24, 6, 7*time.Second
+	if a.Tier == "thorough" {
+		nser, nidle, nstress, sdur = 1200, 120, 16, 60*time.Second
+	}
+	ser := make([]caseRec, nser+nidle+nstress)
+	rngs := make([]*common.Rng, len(ser))
+	for i := range rngs {
+		rngs[i] = rng.Fork(fmt.Sprintf("c%d", i))
+	}
+	common.Parallel(len(ser), 32, func(i int) {
+		switch {
+		case i < nser:
+			pat, wi := "c16a", 0
+			if i%2 == 1 {
+				pat, wi = "c16b", 1
+			}
+			ser[i] = e.serial(fmt.Sprintf("%s/s/n%d", pat, i), wi, rngs[i], false)
+		case i < nser+nidle:
+			pat, wi := "c16c", 0
+			if i%2 == 1 {
+				pat, wi = "c16d", 1
+			}
+			ser[i] = e.serial(fmt.Sprintf("%s/i/n%d", pat, i), wi, rngs[i], true)
+		default:
+			ser[i] = e.stress(fmt.Sprintf("c16d/x/n%d", i), rngs[i], sdur)
+		}
+	})
+	cases = append(cases, ser...)
+	// graceful stop, fresh engine on the same root, compare
 	e.srv = srv.Restart()
 	reg(e.srv)
 	for _, c := range cases {
-		got := e.reload(c.name, 8)
-		fmt.Fprintln(os.Stderr, c.kind, c.name, "acks", c.acks, "reloaded", got)
-		fmt.Fprintln(os.Stderr, "   ", strings.Join(c.script, "\n    "))
+		got := e.reload(c.name, 12)
+		as := make([]string, len(c.acks))
+		for i, x := range c.acks {
+			wflag := 1
+			if x.Del {
+				wflag = 0
+			}
+			as[i] = fmt.Sprintf("(Pa %d %d)", wflag, x.Key)
+		}
+		gs := make([]string, len(got))
+		for i, k := range got {
+			gs[i] = fmt.Sprintf("%d", k)
+		}
+		term := fmt.Sprintf("(Cc %s %s %d %d)", common.List(as), common.List(gs), c.flags, model[c.name])
+		d := map[string]interface{}{"kind": c.kind, "swamp": c.name, "write_interval_s": c.wi, "acks": fmt.Sprint(c.acks),
+			"reloaded": got, "forced_race": c.flags}
+		if len(c.script) <= 40 {
+			d["script"] = c.script
+		}
+		run.Add(term, d, c.nontriv)
+		run.Hist(c.kind)
+		run.HistN("acked_ops", len(c.acks))
+		if strings.HasPrefix(c.kind, "witness") && c.flags == 0 {
+			run.Hist("witness_not_forced")
+		}
 	}
 	e.srv.Stop()
+	run.Meta.Traces = run.Meta.Evaluations
+	run.Finish("check_all")
 }
